@@ -93,6 +93,11 @@ def addr(r):
     if k < 3:
         return ".".join(str(r.below(256)) for _ in range(4))
     if k == 3:
+        if r.below(3) == 0:
+            # spellings inet_ntop would not produce but a peer name / proxy / older sshd may: upper case, zero padding,
+            # zero groups written out — whatever is in the line is what the event must carry
+            return r.choice(["2001:DB8::%X" % (1 + r.below(65535)), "2001:0db8::%04x" % r.below(65536), "2001:db8:0:0:0:0:0:%x" % (1 + r.below(65535)),
+                             "FE80::A", "0:0:0:0:0:0:0:1", "2001:db8:0000:0000:0000:0000:0000:%04x" % r.below(65536)])
         return ":".join("%x" % r.below(65536) for _ in range(8))
     if k == 4:
         return "fe80::" + "%x" % r.below(65536) + "%" + r.choice(["eth0", "ens3", "wlan0", "2"])
@@ -185,7 +190,12 @@ KEYWORDS_EARLY = ["Accepted publickey", "Accepted password", "Certificate invali
 def evil_name(r):
     """client-chosen names for C17: spaces, ' from ', ' port ', embedded well-formed fragments"""
     a = ".".join(str(r.below(256)) for _ in range(4))
-    k = r.below(18)
+    k = r.below(20)
+    if k >= 18:
+        # a name of up to 100 bytes outside ASCII is logged vis-encoded, four characters per byte: up to 400 characters
+        n = 30 + r.below(71)
+        enc = "".join(r.choice(["\\303\\251", "\\343\\201\\202"[:8], "\\377"]) for _ in range(n))[:4 * n]
+        return enc if k == 18 else ("x from 6.6.6.6 port 1 " + enc)[:400]
     if k == 16:
         # tokens sshd itself appends or prepends to such lines
         return r.choice(["x from 6.6.6.6 port 6 ssh2 [preauth]", "x [preauth] y", " [preauth]", "error: x", "x [preauth]",
